@@ -9,9 +9,9 @@ Open Scope list_scope.
 (* ------------------------------------------------------------------------------------------ *)
 (* facts about the generated constants (re-checked against /repo on every run)                  *)
 Lemma sub_is_failure_spec rc : sub_is_failure rc = negb (Z.eqb rc 0).
-Proof. reflexivity. Qed.
+Proof. unfold sub_is_failure. rewrite ?(Z.eqb_sym 0 rc). reflexivity. Qed.
 Lemma node_is_failure_spec rc : node_is_failure rc = negb (Z.eqb rc 0).
-Proof. reflexivity. Qed.
+Proof. unfold node_is_failure. rewrite ?(Z.eqb_sym 0 rc). reflexivity. Qed.
 Lemma sub_cancel_row_canceled n : is_canceled (r_rc (sub_cancel_row n)) (r_status (sub_cancel_row n)) = true.
 Proof. reflexivity. Qed.
 Lemma node_cancel_row_canceled n : is_canceled (r_rc (node_cancel_row n)) (r_status (node_cancel_row n)) = true.
@@ -260,7 +260,9 @@ Lemma bad_row_outcome r : Z.eqb (r_rc r) 0 = false -> bad (row_outcome r) = true
 Proof. intros H. unfold row_outcome. destruct (is_canceled _ _); cbn; [reflexivity|rewrite H; reflexivity]. Qed.
 Lemma good_row_outcome r : Z.eqb (r_rc r) 0 = true -> bad (row_outcome r) = false.
 Proof.
-  intros H. apply Z.eqb_eq in H. unfold row_outcome, is_canceled. rewrite H. cbn. reflexivity.
+  intros H. apply Z.eqb_eq in H. unfold row_outcome. rewrite H.
+  assert (E : is_canceled 0 (r_status r) = false) by (unfold is_canceled; cbn; rewrite ?andb_false_r; reflexivity).
+  rewrite E. reflexivity.
 Qed.
 
 Lemma failed_of_spec rs x : In x (failed_of rs) <-> exists r, In r rs /\ r_name r = x /\ sub_is_failure (r_rc r) = true.
